@@ -89,7 +89,7 @@ def cases(tier, seed):
     for et in Z.ALL_TYPES:
         for mt in [m.name for m in MatrixType.Get_types()]:
             out.append({"kind": "factory", "elemType": et, "matrixType": mt})
-    maps = ["identity", "generic"] if tier == "quick" else ["identity", "generic", "generic2", "reflection"]
+    maps = ["identity", "generic", "tiny"] if tier == "quick" else ["identity", "generic", "generic2", "reflection", "tiny"]
     for et in Z.ALL_TYPES:
         d = Z.dim_of(et)
         variants = [("t", 1, False), ("t", 2, False)]
@@ -122,6 +122,10 @@ def cases(tier, seed):
             for mp in ("generic", "identity"):
                 for kink in (False, True):
                     out.append({"kind": "geom", "elemType": list(mix), "src": "t", "k": k, "distort": False, "map": mp, "kink": kink})
+    # a part and its mirror image (Mesh.Symmetry on a copy) merged into ONE group: element orientation is not uniform in the group
+    for et in Z.ALL_TYPES:
+        if Z.dim_of(et) > 1:
+            out.append({"kind": "geom_mirrormerge", "elemType": et})
     for et in Z.ALL_TYPES:
         d = Z.dim_of(et)
         probs = ["thermal"] if d == 1 else ["thermal", "elastic"]
@@ -251,6 +255,10 @@ def _map(name, dim):
         return np.eye(3), np.zeros(3)
     if name == "reflection":
         return Z.reflection(dim), np.array([0.3, -0.2, 0.1])[:3] * (np.arange(3) < dim)
+    if name == "tiny":
+        # the generic map in nanometres: every edge is ~1e-9 long (nothing geometric may depend on an absolute length)
+        A, b = _map("generic", dim)
+        return 1e-9 * A, 1e-9 * b
     r = rng("c07map", name, dim)
     A = Z.generic_affine(r, dim)
     b = np.zeros(3)
@@ -300,6 +308,25 @@ def _run_geom(case):
         if np.abs(cen - exc).max() > 1e-11 * sc:
             v.append(viol("centroid", f"{zm2.name}: mesh.center = {cen}, exact {exc}", **key))
     fps = [got]
+    # boundary groups (dimension d-1, embedded in dimension d) of affinely mapped templates: their total measure against the sum of the
+    # straight segment lengths / flat face areas computed from the vertices
+    if not dist and d >= 2 and zm2.boundary:
+        exb = 0.0
+        for bt, bcon in zm2.boundary.items():
+            P = zm2.coords[bcon]
+            if d == 2:
+                exb += float(np.linalg.norm(P[:, 1] - P[:, 0], axis=1).sum())
+            elif Z.topo(bt) == "TRI":
+                exb += float(0.5 * np.linalg.norm(np.cross(P[:, 1] - P[:, 0], P[:, 2] - P[:, 0]), axis=1).sum())
+            else:
+                exb += float(np.linalg.norm(np.cross(P[:, 1] - P[:, 0], P[:, 3] - P[:, 0]), axis=1).sum())
+        gotb = 0.0
+        for g in mesh.Get_list_groupElem(d - 1):
+            gotb += float(g.length if d == 2 else g.area)
+        nent += 1
+        fps.append(gotb / exb)
+        if abs(gotb - exb) > 1e-10 * exb:
+            v.append(viol("boundary_measure", f"{zm2.name}: boundary groups measure {gotb!r}, sum of straight edges / flat faces {exb!r} (rel err {abs(gotb - exb) / exb:.2e})", **key))
     # monomial integrals on affine meshes (undistorted templates): exact up to the measured degree of each group's rule
     if not dist and "measure" in zm.exact:
         for g in mesh.Get_list_groupElem():
@@ -325,6 +352,29 @@ def _run_geom(case):
                                       matrixType=str(mt), monomial=str(e), **key))
     return {"violations": v[:12], "fingerprint": fp(str(et), k, dist, case["map"], np.array(fps)), "nontrivial": mesh.Ne > 1,
             "transitions": nent}
+
+
+def _run_geom_mirrormerge(case):
+    from EasyFEA.FEM._mesh import Mesh
+
+    et = case["elemType"]
+    d = Z.dim_of(et)
+    part = (Z.template_2d(et, 2) if d == 2 else Z.template_3d(et, 1)).build(with_boundary=False)
+    other = part.copy()
+    other.Symmetry((1.0, 0.0, 0.0), (1.0, 0.0, 0.0))
+    mesh = Mesh.Merge([part, other])
+    meas = float(mesh.area if d == 2 else mesh.volume)
+    cen = np.asarray(mesh.center, dtype=float)
+    exc = np.array([1.0, 0.5, 0.5 if d == 3 else 0.0])
+    mm = float(sum(np.sum(np.asarray(g.Integrate_e(lambda x, y, z: 1.0), dtype=float)) for g in mesh.Get_list_groupElem(d)))
+    mx = float(sum(np.sum(np.asarray(g.Integrate_e(lambda x, y, z: x), dtype=float)) for g in mesh.Get_list_groupElem(d)))
+    v = []
+    key = dict(kind="geom_mirrormerge", elemType=et)
+    if abs(meas - 2.0) > 1e-11 or abs(mm - 2.0) > 1e-11:
+        v.append(viol("measure", f"{et}: unit part merged with its mirror image: measure {meas!r}, mass-rule integral of 1 {mm!r}, exact 2", **key))
+    if np.abs(cen - exc).max() > 1e-11 or abs(mx - 2.0) > 1e-11:
+        v.append(viol("centroid", f"{et}: unit part merged with its mirror image: center {cen}, exact {exc}; integral of x {mx!r}, exact 2", **key))
+    return {"violations": v, "fingerprint": fp("mirrormerge", et, meas, mm), "nontrivial": True, "transitions": 4}
 
 
 def _observe_geom(mesh, d):
